@@ -42,5 +42,12 @@ def run(run):
             run.count('order differs: fast_generate_from')
         if got['fcbo_dual'] != m2:
             run.count('order differs: fcbo_dual')
+        # the explicit stack / shared-list machine (Model/FcboStack.lean; proved equal to the recursive model)
+        if pc.m <= 14 and pc.n <= 14:
+            s1 = [tuple(map(int, p.split(':'))) for p in d.ask('fcbostack').split()]
+            s2 = [tuple(map(int, p.split(':'))) for p in d.ask('fcbodualstack').split()]
+            if s1 != m1 or s2 != m2:
+                run.fail('model: stack machine and recursive model differ', [s1, s2], [m1, m2], [pc.line, 'fcbostack', 'fcbodualstack'], extra)
+            run.count('stack machine runs')
         run.count('contexts')
         run.count('concepts', len(want))
